@@ -12,10 +12,6 @@ open Optyx.Generated.PinsC17
 theorem pin_autodiff_compile_hessian_anchor : pin_autodiff_compile_hessian = "50982ad58c3902f9" := rfl
 /-- `compile_expression` (core/compiler.py) -/
 theorem pin_compiler_compile_expression_anchor : pin_compiler_compile_expression = "db0179ead8cd3aa4" := rfl
-/-- `_compile_cached` (core/compiler.py) -/
-theorem pin_compiler_compile_cached_anchor : pin_compiler_compile_cached = "4ab132ae0ee10316" := rfl
-/-- `_estimate_tree_depth` (core/compiler.py) -/
-theorem pin_compiler_estimate_tree_depth_anchor : pin_compiler_estimate_tree_depth = "6602d5290a7341a7" := rfl
 /-- `_param_value` (core/compiler.py) -/
 theorem pin_compiler_param_value_anchor : pin_compiler_param_value = "79e7de7cdae81265" := rfl
 /-- `compile_to_dict_function` (core/compiler.py) -/
@@ -24,7 +20,7 @@ theorem pin_compiler_compile_to_dict_function_anchor : pin_compiler_compile_to_d
 theorem pin_compiler_CompiledExpression_anchor : pin_compiler_CompiledExpression = "46e07aadf48eb02a" := rfl
 
 /-- every function the model of C17 transcribes (and no translator covers) is the one it was read from -/
-theorem anchors : pin_autodiff_compile_hessian = "50982ad58c3902f9" ∧ pin_compiler_compile_expression = "db0179ead8cd3aa4" ∧ pin_compiler_compile_cached = "4ab132ae0ee10316" ∧ pin_compiler_estimate_tree_depth = "6602d5290a7341a7" ∧ pin_compiler_param_value = "79e7de7cdae81265" ∧ pin_compiler_compile_to_dict_function = "9c1b94dcff42b825" ∧ pin_compiler_CompiledExpression = "46e07aadf48eb02a" :=
-  ⟨pin_autodiff_compile_hessian_anchor, pin_compiler_compile_expression_anchor, pin_compiler_compile_cached_anchor, pin_compiler_estimate_tree_depth_anchor, pin_compiler_param_value_anchor, pin_compiler_compile_to_dict_function_anchor, pin_compiler_CompiledExpression_anchor⟩
+theorem anchors : pin_autodiff_compile_hessian = "50982ad58c3902f9" ∧ pin_compiler_compile_expression = "db0179ead8cd3aa4" ∧ pin_compiler_param_value = "79e7de7cdae81265" ∧ pin_compiler_compile_to_dict_function = "9c1b94dcff42b825" ∧ pin_compiler_CompiledExpression = "46e07aadf48eb02a" :=
+  ⟨pin_autodiff_compile_hessian_anchor, pin_compiler_compile_expression_anchor, pin_compiler_param_value_anchor, pin_compiler_compile_to_dict_function_anchor, pin_compiler_CompiledExpression_anchor⟩
 
 end Optyx.Props.PinsC17
